@@ -23,6 +23,7 @@ using vt::Ev;
 // ---------------------------------------------------------------------------------------------------------------
 struct Coin { uint64_t x; uint64_t buf; int left; };
 static Coin g_coin = {1, 0, 0};
+static std::vector<int> g_bits;    // the coin outcomes drawn since the last seed_op(): logged with the operation (tier B)
 static uint32_t coin_next(void* c) {
   Coin* k = static_cast<Coin*>(c);
   if (k->left == 0) {
@@ -30,10 +31,11 @@ static uint32_t coin_next(void* c) {
     k->buf = z ^ (z >> 31); k->left = 64;
   }
   uint32_t b = (uint32_t)(k->buf & 1); k->buf >>= 1; k->left--;
+  g_bits.push_back((int)b);
   return b;
 }
 static void seed_op(uint64_t s) {
-  g_coin.x = s * 0xD6E8FEB86659FD93ULL + 12345; g_coin.left = 0;
+  g_coin.x = s * 0xD6E8FEB86659FD93ULL + 12345; g_coin.left = 0; g_bits.clear();
   random_utils::override_seed(s ^ 0xabcdef);   // classic down-sampling merge draws its offset from random_utils::rand
 }
 
@@ -69,6 +71,11 @@ template<> struct Ad<std::string> {
 // ---------------------------------------------------------------------------------------------------------------
 template<class T> struct KllF {
   using Sk = kll_sketch<T, typename Ad<T>::C>;
+  static long num_levels(const Sk& s) {   // "Levels" of to_string()
+    std::string t = s.to_string(); size_t p = t.find("Levels"); p = p == std::string::npos ? p : t.find(':', p);
+    return p == std::string::npos ? -1 : atol(t.c_str() + p + 1);
+  }
+  static void mechanism(Ev&, const Sk&) {}
   // the k the published error is computed from: "min K" of to_string() (smallest k that contributed compacted data)
   static void published(const Sk& s, long long& pk, double& eps, double& eps_pk) {
     std::string t = s.to_string(); size_t p = t.find("min K"); p = p == std::string::npos ? p : t.find(':', p);
@@ -77,6 +84,7 @@ template<class T> struct KllF {
   }
   static const char* name() { return "kll"; }
   static Sk make(unsigned k, bool) { return Sk((uint16_t)k); }
+  static void on_new(Ev&, const Sk&) {}
   static unsigned draw_k(vt::Rng& g, long maxk) { return g.chance(50) ? 8 : (unsigned)g.range(8, maxk); }
   // the space the sketch publishes: serialized size against get_max_serialized_size_bytes(k, n)
   template<class TT = T, typename std::enable_if<std::is_arithmetic<TT>::value, int>::type = 0>
@@ -90,9 +98,37 @@ template<class T> struct KllF {
 };
 template<class T> struct ReqF {
   using Sk = req_sketch<T, typename Ad<T>::C>;
-  static void published(const Sk&, long long& pk, double& eps, double& eps_pk) { pk = 0; eps = 0; eps_pk = 0; }   // REQ publishes bounds, not a k-derived epsilon
+  static void published(const Sk&, long long& pk, double& eps, double& eps_pk) { pk = 0; eps = 0; eps_pk = 0; }
+  static long num_levels(const Sk&) { return -1; }
+  template<class TT = T, typename std::enable_if<!std::is_arithmetic<TT>::value, int>::type = 0>
+  static void mechanism(Ev&, const Sk&) {}
+  // tier B: compaction counter, number of sections, section size and item count of every compactor, read from the sketch's own image
+  template<class TT = T, typename std::enable_if<std::is_arithmetic<TT>::value, int>::type = 0>
+  static void mechanism(Ev& e, const Sk& s) {
+    if (s.get_n() <= req_constants::MIN_K) return;     // raw items layout: a single compactor that never compacted
+    auto b = s.serialize();
+    const bool est = s.is_estimation_mode();
+    size_t off = est ? 8 + 8 + 2 * sizeof(T) : 8; const unsigned levels = b[6];
+    std::string js = "[";
+    for (unsigned h = 0; h < levels && off + 20 <= b.size(); h++) {
+      uint64_t st; float ssr; uint8_t nsec; uint32_t num;
+      memcpy(&st, b.data() + off, 8); memcpy(&ssr, b.data() + off + 8, 4); nsec = b[off + 13]; memcpy(&num, b.data() + off + 16, 4);
+      if (h) js += ",";
+      js += "[" + std::to_string((unsigned long long)st) + "," + std::to_string((unsigned)nsec) + "," + std::to_string(nearest_even(ssr)) + "," + std::to_string(num) + "]";
+      off += 20 + (size_t)num * sizeof(T);
+    }
+    e.raw("rq", js + "]");
+  }   // REQ publishes bounds, not a k-derived epsilon
   static const char* name() { return "req"; }
   static Sk make(unsigned k, bool hra) { return Sk((uint16_t)k, hra); }
+  static unsigned nearest_even(float v) { return ((unsigned)std::round(v / 2)) << 1; }
+  // tier B: the section sizes by generation for this k - the float sequence section_size_raw / sqrt(2) -> nearest_even while >= MIN_K,
+  // computed here from its published definition (reference value, like refhash.hpp)
+  static void on_new(Ev& e, const Sk& s) {
+    std::vector<unsigned> secs; float ssr = (float)s.get_k(); secs.push_back(s.get_k());
+    for (;;) { ssr = ssr / sqrtf(2); unsigned ne = nearest_even(ssr); if (ne < req_constants::MIN_K) break; secs.push_back(ne); }
+    e.il("secs", secs);
+  }
   static unsigned draw_k(vt::Rng& g, long maxk) { return g.chance(50) ? 4 : (unsigned)g.range(4, maxk); }
   // the space the sketch publishes: retained items against "Capacity items" of to_string()
   static void space(const Sk& s, long long& used, long long& bound) {
@@ -103,11 +139,14 @@ template<class T> struct ReqF {
 };
 template<class T> struct ClassicF {
   using Sk = quantiles_sketch<T, typename Ad<T>::C>;
+  static long num_levels(const Sk&) { return -1; }
+  static void mechanism(Ev&, const Sk&) {}
   static void published(const Sk& s, long long& pk, double& eps, double& eps_pk) {
     pk = s.get_k(); eps = s.get_normalized_rank_error(false); eps_pk = Sk::get_normalized_rank_error((uint16_t)pk, false);
   }
   static const char* name() { return "classic"; }
   static Sk make(unsigned k, bool) { return Sk((uint16_t)k); }
+  static void on_new(Ev&, const Sk&) {}
   static unsigned draw_k(vt::Rng& g, long maxk) { unsigned k = 2; while (k * 2 <= (unsigned)maxk && g.chance(55)) k *= 2; return k; }
   static void space(const Sk&, long long& used, long long& bound) { used = 0; bound = 0; }   // documented formula, computed by the specification
 };
@@ -139,19 +178,32 @@ template<class F, class T, class Sk> static void scalars(Ev& e, const Sk& s) {
   e.i("pk", pk).d("epsD", eps).d("epsPkD", eps_pk);
 }
 
-// iteration, guarded: never dereference more entries than get_num_retained() announces
-template<class T, class Sk> static void iterate(Ev& e, const Sk& s, std::vector<T>* items) {
+// iteration, guarded: never dereference more entries than get_num_retained() announces.  Besides the bag of pairs the entries are
+// logged level by level in iteration order ("lv": index = log2(weight); tier B compares them with the design model's levels)
+template<class F, class T, class Sk> static void iterate(Ev& e, const Sk& s, std::vector<T>* items) {
   std::vector<KW> v; size_t lim = s.get_num_retained(), cnt = 0; bool over = false;
+  std::vector<std::vector<double>> lv; bool lvok = true;
   auto it = s.begin(); auto end = s.end();
   while (it != end) {
     if (cnt == lim) { over = true; break; }
     auto p = *it;
     v.push_back(KW(Ad<T>::key(p.first), p.second));
+    unsigned long long w = p.second; int lg = 0; while (lg < 31 && (1ULL << lg) < w) lg++;
+    if (w == 0 || (1ULL << lg) != w || lg > 30) lvok = false;
+    else { if ((int)lv.size() <= lg) lv.resize(lg + 1); lv[lg].push_back(Ad<T>::key(p.first)); }
     if (items) items->push_back(p.first);
     ++it; ++cnt;
   }
   e.i("iterN", (long long)(cnt + (over ? 1 : 0)));
   e.raw("pairs", grouped(v));
+  if (lvok && !over) {
+    const long nl = F::num_levels(s);
+    if (nl > (long)lv.size()) lv.resize((size_t)nl);
+    std::string js = "[";
+    for (size_t h = 0; h < lv.size(); h++) { if (h) js += ","; js += "["; for (size_t i = 0; i < lv[h].size(); i++) { if (i) js += ","; js += Ev::dtok(lv[h][i]); } js += "]"; }
+    e.raw("lv", js + "]").i("nl", nl);
+    F::mechanism(e, s);
+  }
 }
 
 static bool near_int(double x, long long& r) { r = llround(x); return std::fabs(x - (double)r) < 1e-6; }
@@ -159,7 +211,7 @@ static bool near_int(double x, long long& r) { r = llround(x); return std::fabs(
 template<class F, class T, class Sk> static void full_obs(Ev& e, const Sk& s, vt::Rng& g, const std::vector<long>& pool, bool queries) {
   scalars<F, T>(e, s);
   std::vector<T> items;
-  iterate<T>(e, s, &items);
+  iterate<F, T>(e, s, &items);
   // sorted view
   {
     auto sv = s.get_sorted_view();
@@ -252,7 +304,7 @@ template<class F, class T> static void segment(vt::Rng& g, long seg, long events
     shape[i].kind = (int)g.below(5); shape[i].lo = g.range(-300, 300); shape[i].hi = shape[i].lo + (g.chance(40) ? g.range(2, 30) : g.range(100, 4000));
     shape[i].cur = shape[i].kind == 1 ? shape[i].hi : shape[i].lo;
     pool[i].clear(); version[i]++;
-    Ev e("New"); e.i("id", i).str("fam", F::name()).i("kreq", k).b("hra", hra).i("shape", shape[i].kind);
+    Ev e("New"); e.i("id", i).str("fam", F::name()).i("kreq", k).b("hra", hra).i("shape", shape[i].kind); F::on_new(e, *sk[i]);
     scalars<F, T>(e, *sk[i]); e.emit();
   };
   auto remember = [&](int i, long v) { if (pool[i].size() < 64) pool[i].push_back(v); else pool[i][g.below(64)] = v; };
@@ -281,12 +333,12 @@ template<class F, class T> static void segment(vt::Rng& g, long seg, long events
         const bool rv = g.chance(50);
         seed_op(os2); if (rv) { T y = x; s.update(std::move(y)); } else s.update(x);
         version[i]++;
-        Ev e("Update"); e.i("id", i).d("v", A::key(x)).b("rv", rv); scalars<F, T>(e, s);
-        if (g.chance(4)) iterate<T>(e, s, nullptr);
+        Ev e("Update"); e.i("id", i).d("v", A::key(x)).b("rv", rv); if (!g_bits.empty()) e.il("coins", g_bits); scalars<F, T>(e, s);
+        if (g.chance(4)) iterate<F, T>(e, s, nullptr);
         e.emit();
         if (tw[i]) {
           seed_op(os2); if (rv) { T y = x; tw[i]->update(std::move(y)); } else tw[i]->update(x);
-          Ev t("Update"); t.i("id", TW + i).d("v", A::key(x)).b("rv", rv).b("restored", true).i("twinOf", i); scalars<F, T>(t, *tw[i]); t.emit();
+          Ev t("Update"); t.i("id", TW + i).d("v", A::key(x)).b("rv", rv).b("restored", true).i("twinOf", i); if (!g_bits.empty()) t.il("coins", g_bits); scalars<F, T>(t, *tw[i]); t.emit();
         }
       }
     } else if (op < upd + 2) {
@@ -301,10 +353,10 @@ template<class F, class T> static void segment(vt::Rng& g, long seg, long events
       seed_op(os); if (rv) s.merge(std::move(*sk[j])); else s.merge(*sk[j]);
       version[i]++;
       for (long v : pool[j]) remember(i, v);
-      { Ev e("Merge"); e.i("dst", i).i("src", j).b("rv", rv).i("srck", sk[j] ? sk[j]->get_k() : 0); scalars<F, T>(e, s); iterate<T>(e, s, nullptr); e.emit(); }
+      { Ev e("Merge"); e.i("dst", i).i("src", j).b("rv", rv).i("srck", sk[j] ? sk[j]->get_k() : 0).il("coins", g_bits); scalars<F, T>(e, s); iterate<F, T>(e, s, nullptr); e.emit(); }
       if (tw[i]) {
         seed_op(os); if (rv) tw[i]->merge(std::move(*tmp)); else tw[i]->merge(*tmp);
-        Ev t("Merge"); t.i("dst", TW + i).i("src", TMP).b("rv", rv).b("restored", true).i("twinOf", i); scalars<F, T>(t, *tw[i]); iterate<T>(t, *tw[i], nullptr); t.emit();
+        Ev t("Merge"); t.i("dst", TW + i).i("src", TMP).b("rv", rv).b("restored", true).i("twinOf", i).il("coins", g_bits); scalars<F, T>(t, *tw[i]); iterate<F, T>(t, *tw[i], nullptr); t.emit();
         if (!rv) Ev("Destroy").i("id", TMP).emit();
       }
       if (rv) { drop_twin(j); sk[j].reset(); version[j]++; }   // moved-from: not used again
@@ -349,7 +401,8 @@ template<class F, class T> static void segment(vt::Rng& g, long seg, long events
         const Sk& z = who == 0 ? s : *tw[i];
         bool threw = false;
         try { q.f(z); } catch (const std::exception&) { threw = true; }
-        Ev e("Invalid"); e.i("id", who == 0 ? i : TW + i).str("what", q.what).b("onempty", onempty).b("threw", threw);
+        const bool sorts = !strncmp(q.what, "cdf", 3) || !strncmp(q.what, "pmf", 3);   // get_CDF / get_PMF build the sorted view before checking the split points
+        Ev e("Invalid"); e.i("id", who == 0 ? i : TW + i).str("what", q.what).b("onempty", onempty).b("sorts", sorts).b("threw", threw);
         if (who == 1) e.b("restored", true);
         e.emit();
       }
@@ -364,7 +417,7 @@ template<class F, class T> static void segment(vt::Rng& g, long seg, long events
       blob[b].assign(bytes.begin() + hdr, bytes.end()); blob_src[b] = i; blob_ver[b] = version[i];
       Ev e("Ser"); e.i("id", i).i("blob", b).i("hdr", hdr).i("total", (long long)bytes.size()).i("size", (long long)blob[b].size())
         .i("advertised", (long long)s.get_serialized_size_bytes()).bytes("img", blob[b].data(), blob[b].size()).bytes("simg", st.data(), st.size());
-      scalars<F, T>(e, s); iterate<T>(e, s, nullptr); e.emit();
+      scalars<F, T>(e, s); iterate<F, T>(e, s, nullptr); e.emit();
       if (tw[i]) {
         // serialization has side effects (the classic sketch sorts its base buffer): the restored twin does it too
         auto tb = tw[i]->serialize(hdr);
@@ -372,7 +425,7 @@ template<class F, class T> static void segment(vt::Rng& g, long seg, long events
         Ev t("Ser"); t.i("id", TW + i).i("blob", NB + b).i("hdr", hdr).i("total", (long long)tb.size()).i("size", (long long)tb.size() - hdr)
           .i("advertised", (long long)tw[i]->get_serialized_size_bytes()).bytes("img", tb.data() + hdr, tb.size() - hdr).bytes("simg", tst.data(), tst.size())
           .b("restored", true).i("twinOf", i).i("twinBlob", b);
-        scalars<F, T>(t, *tw[i]); iterate<T>(t, *tw[i], nullptr); t.emit();
+        scalars<F, T>(t, *tw[i]); iterate<F, T>(t, *tw[i], nullptr); t.emit();
       }
     } else {
       // deserialize an image: as a twin of its (unchanged) source, continued in lock-step, or into a free slot
@@ -400,7 +453,8 @@ template<class F, class T> static void segment(vt::Rng& g, long seg, long events
       Ev e("Deser"); e.i("blob", b).i("dst", dst).str("fam", F::name()).str("path", stream ? "stream" : "bytes").i("consumed", consumed)
         .bytes("reimg", re.data(), re.size()).b("restored", true);
       if (as_twin) e.i("twinOf", src);
-      scalars<F, T>(e, *r); iterate<T>(e, *r, nullptr); e.emit();
+      e.il("coins", g_bits);      // REQ draws one coin per restored compactor
+      scalars<F, T>(e, *r); iterate<F, T>(e, *r, nullptr); e.emit();
       if (as_twin) tw[src] = std::move(r);
       else { sk[dst] = std::move(r); shape[dst] = shape[src]; pool[dst] = pool[src]; version[dst]++; }
     }
